@@ -230,6 +230,15 @@ def run_mm(case, ctx):
                 miss_internal = True
                 if len(ch[u]) == 1:
                     miss_unary = True
+        if (i + len(geno)) % 2 == 0 and smp:
+            # history on one Tree object: rejected calls must leave nothing behind for the next valid call
+            for bad in ([-1] * len(smp), list(geno[:-1]) + [-2], list(geno[:-1]) + [64]):
+                try:
+                    tree.map_mutations(bad, [str(k) for k in range(64)])
+                except (tskit.LibraryError, ValueError):
+                    pass
+                else:
+                    ctx.fail("map_mutations.bad_genotypes_accepted", f"{bad}")
         a1, m1 = check_one(ctx, tskit, spec, ts, tree, x, geno, alleles, anc, tables=tables)
         total_muts += len(m1)
         if anc is not None:
